@@ -172,6 +172,8 @@ TRANSFORM_FORMULAS = [
     # a stateful transform applied to the multi-column result of another one (per-column nested state under integer / string keys)
     "center(bs(a, df=4))", "scale(cr(a, df=3)) + b", "center(poly(a, 2)) + A", "scale(bs(a, df=3, degree=1)):A",
     "poly(center(a), 2) + scale(poly(b, 2))", "center(cc(a, df=3))",
+    # statistics given as expressions of the data: recorded at fit time like estimated ones
+    "scale(a, center=np.median(a), scale=np.ptp(a)) + b", "scale(b, center=np.mean(a), scale=2.0) + A", "scale(a, center=np.min(a), scale=False):A",
 ]
 
 
